@@ -1,0 +1,71 @@
+//go:build verif
+
+package lazy
+
+// Contracts for lazy.Eval (lazy.go) — property C16 — checked by /verif/govc.
+// Comment-only file.
+//
+// Rec_den(e) is the value an Eval program denotes: the result of its first
+// function if there is no continuation, else the denotation of the
+// continuation applied to it (a tail-recursive equation; one unfolding per
+// use).  Run is proved to compute it (partial correctness: termination of an
+// arbitrary user program is not claimed), the constructors and combinators
+// are characterised through it.
+
+//@ ghost
+//@ func Rec_den[T any](e Eval[T]) T {
+//@ 	r, k := e.Resume()
+//@ 	if k == nil {
+//@ 		return r
+//@ 	}
+//@ 	return Rec_den(k())
+//@ }
+//@ func step[T any](e Eval[T]) Eval[T] {
+//@ 	_, k := e.Resume()
+//@ 	return k()
+//@ }
+//@ end
+//
+//@ func Run(t) result
+//@   prop C16
+//@   option localinv
+//@   ensures Eq(result, Rec_den(t))
+//@   loop 0 invariant Eq(Rec_den(t), AtEntry(Rec_den(t)))
+//@   loop 0 decreases *
+//
+//@ lemma denConstructors[T any](t T, f func() T, g func() Eval[T])
+//@   prop C16
+//@   ensures Eq(Rec_den(Done(t)), t)
+//@   ensures EqT(Done(t).Get(), t)
+//@   ensures EqT(Call(f).Get(), f())
+//@   ensures Eq(Rec_den(TailCall(g)), Rec_den(g()))
+//
+//@ lemma denBind[T any](e Eval[T], f func(T) Eval[T])
+//@   prop C16 C01
+//@   requires e.getNextFunc != nil ==> Eq(Rec_den(step(e).FlatMap(f)), Rec_den(f(Rec_den(step(e)))))
+//@   ensures Eq(Rec_den(e.FlatMap(f)), Rec_den(f(Rec_den(e))))
+//
+//@ lemma denMap[T any](e Eval[T], f func(T) T)
+//@   prop C16 C01
+//@   requires e.getNextFunc != nil ==> Eq(Rec_den(step(e).Map(f)), f(Rec_den(step(e))))
+//@   ensures Eq(Rec_den(e.Map(f)), f(Rec_den(e)))
+//
+//@ lemma memoizeOnce[T any](f func() T)
+//@   prop C16
+//@   ensures EqT(verifspec.P2(Memoize(f)(), 0), verifspec.P2(f(), 0))
+//@   ensures EqT(verifspec.Do(func() { m := Memoize(f); m(); m(); m() }), verifspec.Do(func() { f() }))
+//@   ensures EqT(verifspec.Do(func() { e := Call(f); e.Get(); e.Get() }), verifspec.Do(func() { f() }))
+//@   ensures NoCalls() && verifspec.Do(func() { Call(f); Memoize(f) }) == 0 && TraceLen() == 0
+//
+//@ lemma denMap2[T any](a, b Eval[T], f func(T, T) T)
+//@   prop C16 C01
+//@   option recfuel=6
+//@   requires a.getNextFunc == nil && b.getNextFunc == nil
+//@   ensures Eq(Rec_den(Map2(a, b, f)), f(Rec_den(a), Rec_den(b)))
+//
+//@ lemma evalMonadLaws[T any](t T, e Eval[T], f func(T) Eval[T])
+//@   prop C01 C16
+//@   ensures Eq(Rec_den(Done(t).FlatMap(f)), Rec_den(f(t)))
+//@   tag leftIdentity
+//@   ensures e.getNextFunc == nil ==> Eq(Rec_den(e.FlatMap(Done[T])), Rec_den(e))
+//@   tag rightIdentityBase
